@@ -22,12 +22,13 @@ Record gline := {
 Record gsrc := {
   g_id : list N;
   g_desc : option (list N);
-  g_hsep : list N;                    (* blanks between identifier and description (>= 1; unused without description) *)
+  g_hsep : list N;                    (* blanks after the identifier: >= 1 before a description; without description
+                                         any number of trailing blanks (">ID \n" reads as ID without description) *)
   g_crlf : bool;                      (* lines end with "\r\n" *)
   g_lines : list gline
 }.
 
-(* the header is IoPrint's header: only y_crlf and y_hsep matter there *)
+(* IoPrint's style for eol (y_crlf) and, with a description, the header *)
 Definition style_of_g (r : gsrc) : style :=
   {| y_crlf := g_crlf r; y_hsep := g_hsep r; y_lead := []; y_sep := [32%N]; y_sym := [32%N];
      y_tail := []; y_post := []; y_gap := 0 |}.
@@ -43,11 +44,15 @@ Definition jaspar_line_g (r : gsrc) (l : gline) : list N := gseps (g_toks l) ++ 
 Definition jaspar16_line_g (r : gsrc) (l : gline) : list N :=
   [g_sym l] ++ g_gap l ++ [91%N] ++ gseps (g_toks l) ++ g_tail l ++ [93%N] ++ g_post l ++ eol (style_of_g r).
 
+(* '>' identifier, then blanks and the description, or only (possibly no) trailing blanks *)
+Definition print_header_g (r : gsrc) : list N :=
+  [62%N] ++ g_id r ++ match g_desc r with Some d => g_hsep r ++ d | None => g_hsep r end ++ eol (style_of_g r).
+
 Definition print_jaspar_g (r : gsrc) : list N :=
-  print_header (style_of_g r) (src_of_g r) ++ concat (map (jaspar_line_g r) (g_lines r)).
+  print_header_g r ++ concat (map (jaspar_line_g r) (g_lines r)).
 
 Definition print_jaspar16_g (r : gsrc) : list N :=
-  print_header (style_of_g r) (src_of_g r) ++ concat (map (jaspar16_line_g r) (g_lines r)).
+  print_header_g r ++ concat (map (jaspar16_line_g r) (g_lines r)).
 
 (* ---------- well-formedness ---------- *)
 
@@ -59,8 +64,11 @@ Definition wf_gtoks (toks : list (list N * list N)) : bool :=
   | (b0, t0) :: rest => all_blank b0 && wf_count t0 && forallb wf_sep_tok rest
   end.
 
+Definition wf_hsep_g (r : gsrc) : bool :=
+  match g_desc r with Some _ => blank1 (g_hsep r) | None => all_blank (g_hsep r) end.
+
 Definition wf_jaspar_g (r : gsrc) : bool :=
-  blank1 (g_hsep r) && wf_id (g_id r) && wf_desc (g_desc r)
+  wf_hsep_g r && wf_id (g_id r) && wf_desc (g_desc r)
   && list_eqb (map g_sym (g_lines r)) (map fst gen_jaspar_symbols)
   && same_width (scols (src_of_g r)) && (1 <=? width (scols (src_of_g r)))
   && forallb (fun l => wf_gtoks (g_toks l)) (g_lines r).
@@ -69,7 +77,7 @@ Definition wf_gline16 (l : gline) : bool :=
   blank1 (g_gap l) && all_blank (g_tail l) && all_blank (g_post l) && wf_gtoks (g_toks l).
 
 Definition wf_jaspar16_g (A : alphabet) (r : gsrc) : bool :=
-  blank1 (g_hsep r) && wf_id (g_id r) && wf_desc (g_desc r)
+  wf_hsep_g r && wf_id (g_id r) && wf_desc (g_desc r)
   && negb (is_nil (g_lines r)) && distinct_cols A [] (scols (src_of_g r))
   && same_width (scols (src_of_g r)) && (1 <=? width (scols (src_of_g r)))
   && forallb wf_gline16 (g_lines r).
@@ -84,7 +92,8 @@ Definition gtoks_of_style (y : style) (toks : list (list N)) : list (list N * li
 
 Definition g_of_style (p : style * src) : gsrc :=
   let (y, r) := p in
-  {| g_id := sid r; g_desc := sdesc r; g_hsep := y_hsep y; g_crlf := y_crlf y;
+  {| g_id := sid r; g_desc := sdesc r; g_hsep := match sdesc r with Some _ => y_hsep y | None => [] end;
+     g_crlf := y_crlf y;
      g_lines := map (fun c => {| g_sym := fst c; g_gap := y_sym y; g_toks := gtoks_of_style y (snd c);
                                 g_tail := y_tail y; g_post := y_post y |}) (scols r) |}.
 
